@@ -54,12 +54,46 @@ static void put_ep(probe_t *p, const char *k, const ep_t a) {
 }
 
 /* select a parameter set the way an application does: curve (+ field), then twist / pairing data */
+/* custom parameter sets installed through the DIRECT API (fp_prime_set_dense + ep_curve_set_plain),
+ * pseudo ids 1000 (the NIST P-256 values) and 1001 (the Brainpool P-256 values) */
+#if FP_PRIME == 256
+static const char *CUSTOM[2][6] = {
+	{ "FFFFFFFF00000001000000000000000000000000FFFFFFFFFFFFFFFFFFFFFFFF",
+	  "FFFFFFFF00000001000000000000000000000000FFFFFFFFFFFFFFFFFFFFFFFC",
+	  "5AC635D8AA3A93E7B3EBBD55769886BC651D06B0CC53B0F63BCE3C3E27D2604B",
+	  "6B17D1F2E12C4247F8BCE6E563A440F277037D812DEB33A0F4A13945D898C296",
+	  "4FE342E2FE1A7F9B8EE7EB4A7C0F9E162BCE33576B315ECECBB6406837BF51F5",
+	  "FFFFFFFF00000000FFFFFFFFFFFFFFFFBCE6FAADA7179E84F3B9CAC2FC632551" },
+	{ "A9FB57DBA1EEA9BC3E660A909D838D726E3BF623D52620282013481D1F6E5377",
+	  "7D5A0975FC2C3057EEF67530417AFFE7FB8055C126DC5C6CE94A4B44F330B5D9",
+	  "26DC5C6CE94A4B44F330B5D9BBD77CBF958416295CF7E1CE6BCCDC18FF8C07B6",
+	  "8BD2AEB9CB7E57CB2C4B482FFC81B7AFB9DE27E1E3BD23C23A4453BD9ACE3262",
+	  "547EF835C3DAC4FD97F8461A14611DC9C27745132DED8E545C1D54C72F046997",
+	  "A9FB57DBA1EEA9BC3E660A909D838D718C397AA3B561A6F7901E0E82974856A7" } };
+static void select_custom(int k) {
+	bn_t p, r, h; fp_t a, b; ep_t g;
+	bn_null(p); bn_null(r); bn_null(h); fp_null(a); fp_null(b); ep_null(g);
+	bn_new(p); bn_new(r); bn_new(h); fp_new(a); fp_new(b); ep_new(g);
+	bn_read_str(p, CUSTOM[k][0], 64, 16);
+	fp_prime_set_dense(p);
+	fp_read_str(a, CUSTOM[k][1], 64, 16); fp_read_str(b, CUSTOM[k][2], 64, 16);
+	fp_read_str(g->x, CUSTOM[k][3], 64, 16); fp_read_str(g->y, CUSTOM[k][4], 64, 16);
+	fp_set_dig(g->z, 1); g->coord = BASIC;
+	bn_read_str(r, CUSTOM[k][5], 64, 16); bn_set_dig(h, 1);
+	ep_curve_set_plain(a, b, g, r, h, 0);
+	bn_free(p); bn_free(r); bn_free(h); fp_free(a); fp_free(b); ep_free(g);
+}
+#endif
+
 static int select_id(int id) {
 	volatile int ok = 1;
 	RLC_TRY {
+#if FP_PRIME == 256
+		if (id >= 1000) { select_custom(id - 1000); } else
+#endif
 		ep_param_set(id);
 #if defined(WITH_PP)
-		if (ep_curve_is_pairf() && ep_curve_embed() == 12) {
+		if (id < 1000 && ep_curve_is_pairf() && ep_curve_embed() == 12) {
 			/* the twist type is the caller's knowledge: take the one under which the Frobenius
 			 * endomorphism acts on the generator as multiplication by p (selection only, not a verdict) */
 			{
@@ -137,7 +171,7 @@ static void probe(probe_t *p, int id) {
 #if defined(WITH_PP)
 		/* tower, twist, pairing, target group */
 		stage = 3;
-		if (ep_curve_is_pairf() && ep_curve_embed() == 12) {
+		if (id < 1000 && ep_curve_is_pairf() && ep_curve_embed() == 12) {
 			uint8_t big[12 * RLC_FP_BYTES];
 			fp2_t x2, y2; ep2_t g2, r2; fp12_t e1, e2; g1_t p1; gt_t gg;
 			fp2_null(x2); fp2_null(y2); ep2_null(g2); ep2_null(r2); fp12_null(e1); fp12_null(e2); g1_null(p1); gt_null(gg);
@@ -220,6 +254,9 @@ int main(int argc, char **argv) {
 			vh_begin("ids");
 			fputs(",\"ids\":[", vh_out);
 			for (i = 1; i < 200; i++) if (select_id(i)) { fprintf(vh_out, "%s%d", first ? "" : ",", i); first = 0; }
+#if FP_PRIME == 256
+			fprintf(vh_out, "%s1000,1001", first ? "" : ",");
+#endif
 			fputs("]", vh_out);
 			vh_end();
 			core_clean();
